@@ -30,8 +30,9 @@ ASSUMPTIONS = [
     'roundings at 1.1e-16 each on the largest intermediate)',
     'scipp unit conversion multiplies by the ratio of unit scales (pulse_frequency.to(unit=frequency.unit) is '
     'evaluated by scipp and handed to the bit-exact Float model of the integer-ratio test)',
-    'none_missing / cascade theorems assume the slits lie within one turn of each other (begin_i, end_i in [base, base+1)) '
-    'as in NeXus files; slit sets spread over several turns are outside the quantifier',
+    'closed_just_outside needs slit sets without a touch across top-dead-centre (no end exactly one turn after a begin): '
+    'touching slits and a single slit of exactly one turn are accepted by _check_edges and the chopper does not close '
+    'there (proved counterexample accepted_closed_just_outside_full_false); none_missing needs nothing beyond acceptance',
     'frequency != 0 (the quantifier is ratios 1/4..8 of either sign)',
 ]
 TRUSTED = [
